@@ -540,6 +540,69 @@ func scenUnblock(g *rand.Rand) (string, []string, error) {
 	return w.verdict([]string{"k"}), w.log, nil
 }
 
+// an unblock request that arrives while the client is being served (its wake-up token is already
+// posted) belongs to THAT block: if the element wins, the request must be discarded — it must not
+// end the client's next blocking command (Capture.v: C12_reusable, C12_block_again)
+func scenStaleUnblock(g *rand.Rand) (string, []string, error) {
+	w, err := newBWorld(2)
+	if err != nil {
+		return "", nil, err
+	}
+	defer w.close()
+	id := w.clients[0].id
+	for round := 0; round < 6; round++ {
+		mode := []string{"", "TIMEOUT", "ERROR"}[g.Intn(3)]
+		w.srv.Ctl("PARK block.beforewait "+id, time.Second)
+		w.block(0, []string{"k"}, "BLPOP", "k", "0")
+		if !w.waitParked("block.beforewait", id) {
+			return "client never reached the wait", w.log, nil
+		}
+		w.push("k", 1) // the token is posted while the client is held just before its select
+		args := []string{"CLIENT", "UNBLOCK", id}
+		if mode != "" {
+			args = append(args, mode)
+		}
+		ur, err := w.do(args...)
+		if err != nil {
+			return "CLIENT UNBLOCK not answered: " + err.Error(), w.log, nil
+		}
+		if ur.Int != 1 {
+			return "CLIENT UNBLOCK of a blocked (captured) client replied " + ur.String(), w.log, nil
+		}
+		w.srv.Ctl("UNPARK block.beforewait "+id, time.Second)
+		w.srv.Ctl("RELEASE all", time.Second)
+		r, _ := w.poll(0, 2*time.Second)
+		if r == nil {
+			return "block ended neither by the element nor by the unblock request", w.log, nil
+		}
+		servedByElement := !r.Nil && r.Kind != '-'
+		if !servedByElement {
+			// the request won; the element stays in the list: take it away for the next round
+			if n, _ := w.do("LPOP", "k"); n != nil {
+				w.collect(n)
+			}
+		}
+		// the next block of the same connection starts clean
+		t0 := time.Now()
+		w.block(0, []string{"k"}, "BLPOP", "k", "0.08")
+		r2, err := w.poll(0, 2*time.Second)
+		el := time.Since(t0)
+		if err != nil || r2 == nil {
+			return "second block did not end", w.log, nil
+		}
+		if r2.Kind == '-' {
+			return fmt.Sprintf("the next blocking command ended with %s although nobody unblocked it (served by element before: %v)", r2.String(), servedByElement), w.log, nil
+		}
+		if !r2.Nil {
+			return "the next blocking command on an empty list returned " + r2.String(), w.log, nil
+		}
+		if el < 75*time.Millisecond {
+			return fmt.Sprintf("the next blocking command (timeout 80 ms) ended after %v: an unblock request of the previous block ended it (served by element before: %v)", el, servedByElement), w.log, nil
+		}
+	}
+	return w.verdict([]string{"k"}), w.log, nil
+}
+
 // a killed (server side) or closed (client side) blocked client must stop competing for elements
 func scenDisconnect(g *rand.Rand, clientSide bool) (string, []string, error) {
 	w, err := newBWorld(2)
@@ -661,9 +724,9 @@ func init() {
 		[]string{"stolen-wakeup", "timeout-tie", "multi-key", "fifo", "other-producers", "random", "random", "random"}, 40, 800)
 	specialReplay["C11"] = true
 	streams["C12"] = runBlocking("C12",
-		[]func(g *rand.Rand) (string, []string, error){scenTimeouts, scenUnblock, scenUnblock,
+		[]func(g *rand.Rand) (string, []string, error){scenTimeouts, scenUnblock, scenStaleUnblock,
 			func(g *rand.Rand) (string, []string, error) { return scenDisconnect(g, false) },
 			func(g *rand.Rand) (string, []string, error) { return scenDisconnect(g, true) }, scenTimeoutTie},
-		[]string{"timeouts", "unblock", "unblock", "kill", "peer-close", "timeout-tie"}, 14, 300)
+		[]string{"timeouts", "unblock", "stale-unblock", "kill", "peer-close", "timeout-tie"}, 14, 300)
 	specialReplay["C12"] = true
 }
